@@ -140,7 +140,9 @@ def step (d0 : DS) (line : String) : DS × String :=
   let ws := words line
   let d : DS := { d0 with tbl := parseShas ws ++ d0.tbl }
   let sha := shaKey d.tbl
-  let ws := ws.filter (fun w => !w.startsWith "sha=" && !w.startsWith "cls=")
+  -- src= / after=: which reader kind the harness hands to Create and what it does to it afterwards;
+  -- the model's Create copies its input, so these words do not change its answer
+  let ws := ws.filter (fun w => !w.startsWith "sha=" && !w.startsWith "cls=" && !w.startsWith "src=" && !w.startsWith "after=")
   match ws with
   | ["reset"] => ({}, "ok")
   | ["create", "fs", rr] =>
